@@ -54,20 +54,20 @@ type Ctx struct {
 	Shadow     bool           // also run every verification case twice through a re-used Options value (history independence)
 	SharedPool chan any       // pool of re-used Options values (one per worker), managed by props
 
-	start time.Time
-	mu    sync.Mutex
-	tally map[string]*Tally
-	dist  map[uint64]struct{}
-	viol  []Violation
-	incon []string
-	brok  []string
+	start  time.Time
+	mu     sync.Mutex
+	tally  map[string]*Tally
+	dist   map[uint64]struct{}
+	viol   []Violation
+	incon  []string
+	brok   []string
 	cmu    sync.Mutex
 	crumbs [256]*os.File
-	samp  []any
-	reqs  []requirement
-	evals int64
-	nviol int
-	known []KnownFinding
+	samp   []any
+	reqs   []requirement
+	evals  int64
+	nviol  int
+	known  []KnownFinding
 }
 
 // NewCtx prepares a run.
